@@ -192,6 +192,11 @@ async fn run_history(evs: &[Ev], r: &mut Report) {
                     return;
                 }
                 Some(real) => {
+                    let (rs, ms) = (real.intervals.sum(), w.sum);
+                    if (rs - ms).abs() > 1e-9 * (1.0 + ms.abs()) {
+                        r.fail("window-sum", format!("member {n}: window sum {rs} vs reference {ms} after event #{i} {:?}", ev), case.clone());
+                        return;
+                    }
                     if real.intervals.len() != w.len() || real.last_heartbeat.is_some() != w.last_hb_ms.is_some() {
                         r.fail("window-state", format!("member {n}: window len {} last_heartbeat {:?}, model len {} last {:?}", real.intervals.len(), real.last_heartbeat.is_some(), w.len(), w.last_hb_ms), case.clone());
                         return;
@@ -246,6 +251,32 @@ async fn verif_fd_model() {
         }
         if done {
             break;
+        }
+    }
+    // structured family: n steady intervals (possibly wrapping the window), death by silence,
+    // revival with k fresh heartbeats, then evaluations through a long silence
+    for n_pre in 1..=(2 * WINDOW as u8 + 2) {
+        for step in [0u8, 1] {
+            for k_rev in 2..=4u8 {
+                let mut seq = vec![Ev::Report(0)];
+                for _ in 0..n_pre {
+                    seq.push(Ev::Advance(step));
+                    seq.push(Ev::Report(0));
+                    seq.push(Ev::Update(0));
+                }
+                seq.push(Ev::Advance(5));
+                seq.push(Ev::Update(0)); // dead
+                for _ in 0..k_rev {
+                    seq.push(Ev::Report(0));
+                    seq.push(Ev::Advance(0));
+                    seq.push(Ev::Update(0));
+                }
+                for _ in 0..12 {
+                    seq.push(Ev::Advance(1));
+                    seq.push(Ev::Update(0));
+                }
+                run_history(&seq, &mut r).await;
+            }
         }
     }
     let mut rng = Rng64(seed() ^ 0xFD);
